@@ -21,6 +21,7 @@ class Obj:
 R = Obj("R")
 SNAP = Obj("SNAP")
 class MyErr(Exception): pass
+WRONG = Obj("WRONG")
 class MyBase(BaseException): pass
 class FalsyErr(Exception):
     def __bool__(self): return False
@@ -53,7 +54,8 @@ def render(case):
     role, ck, form, subset = case["role"], case["callable"], case["form"], case["subset"]
     w = [PRELUDE]
     log_expr = "{" + ", ".join("'{0}': {0}".format(n) for n in subset) + "}"
-    params = ", ".join(subset)
+    # fac_defaults: every parameter of the factory carries a (wrong) default; the values of the call must win
+    params = ", ".join((n + "=WRONG") if case.get("fac_defaults") else n for n in subset)
     fac_body = "    LOG.append(('ef', {}))\n    RET['v'] = {}\n    return RET['v']\n".format(log_expr, case.get("fac_ret", "MyErr('from factory')"))
     err = None
     if form == "none":
@@ -138,6 +140,8 @@ def cases(tier):
                         subsets = [s for s in subsets if len(s) in (0, 1, len(names))]
                     for sub in subsets:
                         out.append({"role": role, "callable": ck, "form": form, "subset": sub})
+                        if sub and form in ("func", "lambda", "bound"):
+                            out.append({"role": role, "callable": ck, "form": form, "subset": sub, "fac_defaults": True})
                     if form in ("func", "bound"):
                         out.append({"role": role, "callable": ck, "form": form, "subset": names[:1] + ["nope"], "unknown": "nope"})
                         out.append({"role": role, "callable": ck, "form": form, "subset": names[:1], "fac_ret": "'not an exception'"})
@@ -169,7 +173,7 @@ def run_case(case, acc):
     src = render(case)
     role, ck, form = case["role"], case["callable"], case["form"]
     feats = {"role": role, "callable": ck, "form": form, "subset": ",".join(case["subset"]),
-             "unknown": case.get("unknown"), "fac_ret": case.get("fac_ret")}
+             "unknown": case.get("unknown"), "fac_ret": case.get("fac_ret"), "fac_defaults": case.get("fac_defaults", False)}
     key = json.dumps(case, sort_keys=True)
 
     def viol(sym, detail):
